@@ -652,53 +652,87 @@ func ctxFromInitialize(p *Program, v ssa.Value, depth int) (bool, string) {
 // calls to in-repo functions that return their first parameter unchanged
 // (opts.ApplyOptions).
 func structOrigin(p *Program, v ssa.Value, depth int) (*ssa.Alloc, bool) {
-	if depth > 4 {
+	o, ok := structOriginOf(v, depth)
+	if !ok || o.alloc == nil {
 		return nil, false
+	}
+	return o.alloc, true
+}
+
+// structOriginOf: the allocation (possibly in a callee that hands it back) or
+// the parameter a struct pointer derives from, looking through in-repo calls
+// whose every non-nil result is the same parameter or the same fresh allocation.
+type ptrOrigin struct {
+	alloc *ssa.Alloc
+	param *ssa.Parameter
+}
+
+func structOriginOf(v ssa.Value, depth int) (ptrOrigin, bool) {
+	if depth > 6 {
+		return ptrOrigin{}, false
 	}
 	switch x := v.(type) {
 	case *ssa.Alloc:
-		return x, true
+		return ptrOrigin{alloc: x}, true
+	case *ssa.Parameter:
+		return ptrOrigin{param: x}, true
 	case *ssa.Extract:
-		call, ok := x.Tuple.(*ssa.Call)
-		if !ok {
-			return nil, false
+		if call, ok := x.Tuple.(*ssa.Call); ok {
+			return callResultOrigin(call, x.Index, depth)
 		}
-		sc := call.Common().StaticCallee()
-		if sc == nil || !inRepoFn(sc) || len(sc.Blocks) == 0 {
-			return nil, false
-		}
-		// every return's result[x.Index] is parameter k
-		k := -1
-		for _, b := range sc.Blocks {
-			if ret, ok := b.Instrs[len(b.Instrs)-1].(*ssa.Return); ok {
-				pi := -1
-				for i, prm := range sc.Params {
-					if x.Index < len(ret.Results) && ret.Results[x.Index] == ssa.Value(prm) {
-						pi = i
-					}
-				}
-				if pi < 0 || (k >= 0 && k != pi) {
-					return nil, false
-				}
-				k = pi
-			}
-		}
-		if k < 0 || k >= len(call.Common().Args) {
-			return nil, false
-		}
-		return structOrigin(p, call.Common().Args[k], depth+1)
+	case *ssa.Call:
+		return callResultOrigin(x, 0, depth)
 	case *ssa.Phi:
-		var res *ssa.Alloc
+		var res ptrOrigin
+		found := false
 		for _, e := range x.Edges {
-			a, ok := structOrigin(p, e, depth+1)
-			if !ok || (res != nil && a != res) {
-				return nil, false
+			if c, ok := e.(*ssa.Const); ok && c.IsNil() {
+				continue
 			}
-			res = a
+			o, ok := structOriginOf(e, depth+1)
+			if !ok || (found && o != res) {
+				return ptrOrigin{}, false
+			}
+			res, found = o, true
 		}
-		return res, res != nil
+		return res, found
 	}
-	return nil, false
+	return ptrOrigin{}, false
+}
+
+func callResultOrigin(call *ssa.Call, idx int, depth int) (ptrOrigin, bool) {
+	sc := call.Common().StaticCallee()
+	if sc == nil || !inRepoFn(sc) || len(sc.Blocks) == 0 {
+		return ptrOrigin{}, false
+	}
+	var res ptrOrigin
+	found := false
+	for _, b := range sc.Blocks {
+		ret, ok := b.Instrs[len(b.Instrs)-1].(*ssa.Return)
+		if !ok || idx >= len(ret.Results) {
+			continue
+		}
+		if c, ok := ret.Results[idx].(*ssa.Const); ok && c.IsNil() {
+			continue // the error path
+		}
+		o, ok := structOriginOf(ret.Results[idx], depth+1)
+		if !ok || (found && o != res) {
+			return ptrOrigin{}, false
+		}
+		res, found = o, true
+	}
+	if !found {
+		return ptrOrigin{}, false
+	}
+	if res.param != nil {
+		for i, prm := range sc.Params {
+			if prm == res.param && i < len(call.Common().Args) {
+				return structOriginOf(call.Common().Args[i], depth+1)
+			}
+		}
+		return ptrOrigin{}, false
+	}
+	return res, true
 }
 
 // MUT2 from the Compile entry points (C04: compile calls are isolated).
